@@ -28,6 +28,15 @@ def cases(draw, max_steps=12):
     need = scn["time"]["pre"] + scn["time"]["nsteps"] + 1
     while sum(scn["forcing"]["gaps"]) < need:
         scn["forcing"]["gaps"].append(draw(st.integers(1, 5)))
+    if draw(st.sampled_from([False, True])):
+        # the forcing ends exactly at the stop time: a warm-started run performs its last step on the very last frame
+        g, end = scn["forcing"]["gaps"], scn["time"]["pre"] + scn["time"]["nsteps"]
+        while sum(g) > end and len(g) > 1 and sum(g[:-1]) >= end:
+            g.pop()
+        if sum(g) > end and sum(g[:-1]) < end:
+            g[-1] = end - sum(g[:-1])
+        if sum(g) == end and end > 0:
+            scn["forcing_ends_at_stop"] = True
     scn["forcing"]["partition"] = [len(scn["forcing"]["gaps"]) + 1]
     for r in scn["release"]["rows"]:
         r["step"] = min(r["step"], scn["time"]["nsteps"] - 1)
@@ -107,6 +116,8 @@ def oracle(scn) -> core.CaseResult:
     for s in SLOTS:
         res.cls(f"{s}:{spell[s]}")
     res.cls("warm" if scn["warm"] else "cold")
+    if scn.get("forcing_ends_at_stop"):
+        res.cls("forcing_ends_at_stop" + ("_warm" if scn["warm"] else ""))
     paths, names = [], []
     with e2e.workdir() as d:
         try:
